@@ -28,9 +28,9 @@ TABLE_DEPS = {"C03": ["C03"], "C19": ["C19", "C03"], "C08": ["C08"], "C09": ["C0
 STATEMENT = {
     "C01": {"panic", "FAIL"}, "C02": {"FAIL", "panic"}, "C03": {"FAIL", "panic", "events"},
     "C04": {"spec", "panic", "events"}, "C05": {"spec", "panic", "events"}, "C06": {"spec", "panic", "events"}, "C07": {"spec", "panic", "events"},
-    "C08": {"spec", "panic", "events"}, "C09": {"wf", "panic", "FAIL"}, "C10": {"display", "display-impure", "panic", "FAIL"},
-    "C11": {"FAIL", "panic", "events"}, "C12": {"spec", "dirty", "panic", "events"}, "C13": {"spec", "panic", "events"}, "C14": {"spec", "panic", "events"},
-    "C15": {"spec", "dirty", "panic", "FAIL", "events"}, "C16": {"spec", "dirty", "wf", "panic"}, "C17": {"dirty", "panic"},
+    "C08": {"spec", "panic", "events"}, "C09": {"wf", "hidden", "panic", "FAIL"}, "C10": {"display", "display-impure", "panic", "FAIL"},
+    "C11": {"FAIL", "panic", "events"}, "C12": {"spec", "dirty", "panic", "events"}, "C13": {"spec", "hidden", "panic", "events"}, "C14": {"spec", "panic", "events"},
+    "C15": {"spec", "dirty", "panic", "FAIL", "events"}, "C16": {"spec", "dirty", "wf", "hidden", "panic"}, "C17": {"dirty", "panic"},
     "C18": {"spec", "panic", "events"}, "C19": {"FAIL", "panic", "events"}, "C20": {"spec", "panic", "FAIL", "events"},
 }
 TRUSTED = [
